@@ -33,7 +33,9 @@ DESCRIPTION = {
         "each simulated run = a fresh scratch tree (root/, root/sub/deep/, root_sibling/, root2/, outside/, static/, cwd/) in which every file "
         "content and every directory entry carries a unique marker, and a history of 4-30 operations: GET path, POST /script|/lineage {f}, POST "
         "/directory {f}|{d}|{}, OPTIONS, other methods, with paths built from <=5 segments of {.., ., child, nested child, sibling-with-common-"
-        "prefix, outside dir, file-as-directory, empty} in absolute and relative spelling (half of them starting inside the root in force); between "
+        "prefix, outside dir, file-as-directory, empty} in absolute and relative spelling (half of them starting inside the root in force), plus detours "
+        "(out of the root through a missing entry or a regular file and back in BY NAME) and literal spellings some layer might expand (~, ~user, $HOME, "
+        "%-escapes, file://) with HOME pointing at a directory outside every root; between "
         "requests: root moves (absolute and relative spelling), chdir, file<->directory swaps / deletes / creations, SQLLINEAGE_DIRECTORY flips; "
         "OSError (ENOENT, EACCES, EISDIR, ENOTDIR, EIO, EMFILE) injected at the n-th open/exists/is_dir/iterdir; in the threaded class two client "
         "threads and a root-move actor are interleaved at every source line of drawing.py. Distinct = sha256 of the operation-level event sequence "
@@ -52,7 +54,7 @@ DESCRIPTION = {
     ],
     "required_probes": {
         "quick": ["insertion_sweep", "outside_dotdot", "outside_sibling_prefix", "outside_absolute", "outside_relative", "inside_served", "directory_of_root_file",
-                  "directory_f_is_root", "get_static_served", "get_outside", "os_error_fired", "root_moved", "chdir", "fs_mutated", "lineage_by_file"],
+                  "directory_f_is_root", "get_static_served", "get_outside", "os_error_fired", "root_moved", "chdir", "fs_mutated", "lineage_by_file", "literal_expandable_spelling"],
         "thorough": ["outside_dotdot", "outside_sibling_prefix", "inside_served", "os_error_fired", "root_moved", "threaded_root_move_concurrent"],
     },
 }
